@@ -198,3 +198,54 @@ def _(self, data: Bytes, encoder: Obj("Encoder")):
     ensures(implies(self.has_extension_marker and not in_size_range(self.minimum, self.maximum, len(data))
                     and len(data) < 128,
                     encoder.number_of_bits == old(encoder.number_of_bits) + 1 + 8 + 8 * len(data)))
+
+
+fields("KnownMultiplierStringType", minimum=Union(Int, Lit('MIN'), NoneT), maximum=Union(Int, Lit('MAX'), NoneT),
+       has_extension_marker=Opt(Bool), number_of_bits=Opt(Nat), bits_per_character=Nat,
+       permitted_alphabet=Obj("asn1tools/codecs/per.py", "PermittedAlphabet"), ENCODING=Str)
+invariant("KnownMultiplierStringType",
+          implies(self.number_of_bits is not None,
+                  py_is_int(self.minimum) and py_is_int(self.maximum) and 0 <= self.minimum
+                  and self.minimum <= self.maximum and self.maximum <= 65535
+                  and self.number_of_bits == blen(self.maximum - self.minimum)))
+
+
+@contract("asn1tools/codecs/per.py", "KnownMultiplierStringType.encode_unbound", abstract=True)
+def _(self, data: Str, encoder: Obj("Encoder")):
+    # assumed (generator based fragment loop, outside the subset): only appends
+    raises(EncodeError)
+    raises(UnicodeEncodeError)
+    assigns(encoder)
+    ensures(encoder.chunks_number_of_bits + encoder.number_of_bits
+            >= old(encoder.chunks_number_of_bits) + old(encoder.number_of_bits))
+
+
+@contract("KnownMultiplierStringType.encode", props=["C05", "C01"], for_class="any")
+def _(self, data: Str, encoder: Obj("Encoder")):
+    # X.691 30 (unaligned): extension bit 0 only for a length inside the root (a length outside the root is refused:
+    # the extension form is not implemented -- never a silently corrupt encoding, F09); bounded size: n - lb in
+    # blen(ub - lb) bits; then bits_per_character bits per character
+    requires(encoder.number_of_bits <= 3000)
+    requires(implies(self.number_of_bits is not None and not self.has_extension_marker,
+                     self.minimum <= len(data) and len(data) <= self.maximum))      # established by check_constraints (C11)
+    assumes("class invariant of PermittedAlphabet (established by the compiler): every code fits bits_per_character",
+            forall(lambda v: implies(v in self.permitted_alphabet.encode_map,
+                                     self.permitted_alphabet.encode_map[v] < pow2(self.bits_per_character))))
+    use(blen_upper(len(data) - self.minimum))
+    use(blen_mono(len(data) - self.minimum, self.maximum - self.minimum))
+    use(blen_le(self.maximum - self.minimum, 16))
+    use(pow2_mono(blen(len(data) - self.minimum), blen(self.maximum - self.minimum)))
+    raises(EncodeError)
+    raises(UnicodeEncodeError)
+    raises(NotImplementedError, when=self.has_extension_marker is True
+           and not in_size_range(self.minimum, self.maximum, len(data)))
+    assigns(encoder)
+    ghost_init(g_hdr=0)
+    at_stmt("@loop0", set=dict(g_hdr=encoder.chunks_number_of_bits + encoder.number_of_bits))
+    ensures(implies(self.number_of_bits is not None and self.minimum != self.maximum,
+                    g_hdr == old(encoder.chunks_number_of_bits) + old(encoder.number_of_bits)
+                    + (1 if self.has_extension_marker else 0) + self.number_of_bits))
+    ensures(implies(self.number_of_bits is not None and self.minimum == self.maximum,
+                    g_hdr == old(encoder.chunks_number_of_bits) + old(encoder.number_of_bits)
+                    + (1 if self.has_extension_marker else 0)))
+    loop(0, invariant=[encoder.chunks_number_of_bits + encoder.number_of_bits >= g_hdr])
